@@ -228,11 +228,18 @@ def check_import(cfg, crate, rep):
     # refusal must fire; with exactly one attribute none of the "shape" refusals may (whatever the spelling: nested
     # if-let, a match on the pair, let-else ...)
     fconds = [c for c, v, nn, f3 in I2.fails if f3 == fn2]
-    nexts = sorted({a for c in fconds for a in F.atoms(c) if a[0] == "some" and "::next(" in a[1]}, key=lambda a: len(a[1]))
+    nexts = sorted({a for c in fconds for a in F.atoms(c) if a[0] == "some" and a[1].split("(")[0].endswith("Iterator>::next")}, key=lambda a: len(a[1]))
     multi_ok = False
     found_m = "no refusal depends on a second attribute of the RDN"
+    empties = sorted({a for c in fconds for a in F.atoms(c) if a[0] == "empty" and a[1].startswith("name[]")}, key=lambda a: len(a[1]))
+    first = second = None
+    first_true = True
     if len(nexts) >= 2:
         first, second = nexts[0], nexts[1]
+    elif len(nexts) == 1 and empties:
+        # the first `next()` of the fresh iterator over the RDN is rendered as "the RDN is not empty"
+        first, second, first_true = empties[0], nexts[0], False
+    if first is not None:
         def ev(c, asg):
             full = {a: False for a in F.atoms(c)}
             for a in F.atoms(c):
@@ -240,9 +247,9 @@ def check_import(cfg, crate, rep):
                     full[a] = True
             full.update({a: v for a, v in asg.items() if a in full})
             return F.evalf(c, full)
-        both = [c for c in fconds if first in F.atoms(c) and second in F.atoms(c)]
-        multi_ok = any(ev(c, {first: True, second: True}) for c in both) and not any(ev(c, {first: True, second: False}) for c in both)
-        found_m = "refused with two attributes: %s; accepted with one: %s" % (any(ev(c, {first: True, second: True}) for c in both), not any(ev(c, {first: True, second: False}) for c in both))
+        both = [c for c in fconds if second in F.atoms(c)]     # (the test of the first attribute may already have left the function)
+        multi_ok = any(ev(c, {first: first_true, second: True}) for c in both) and not any(ev(c, {first: first_true, second: False}) for c in both)
+        found_m = "refused with two attributes: %s; accepted with one: %s" % (any(ev(c, {first: first_true, second: True}) for c in both), not any(ev(c, {first: first_true, second: False}) for c in both))
     rep.ob("C03.import", key2 + "|multi-valued-rdn-refused", multi_ok, "an RDN with more than one attribute is refused (and one with exactly one attribute is not refused for its shape)", found=found_m)
     other = [c for c, v, nn, f3 in I2.fails if f3 == fn2 and sum(1 for a in F.atoms(c) if a[0] == "eq" and "Tag::" in str(a[2])) >= 6]
     rep.ob("C03.import", key2 + "|unknown-tag-refused", len(other) >= 1, "an attribute value with any other tag is refused", found=len(other))
